@@ -178,25 +178,39 @@ Proof.
 Qed.
 Print Assumptions C15_roundtrip_hash_refuted.
 
-(* NFSv4 ACLs: not proved.  What is missing: the word-level evaluation of parse_nfs4 (the
-   analogue of AclRound.parse_entry_words) and the inverse relation between the generated letter
-   tables nfsv4_perm_map / nfsv4_flag_map and the switch tables of is_nfs4_perms / is_nfs4_flags.
-   The decidable part of that relation is checked here on the generated tables: every letter the
-   serialiser writes is read back as exactly the bits it was written for. *)
-Definition nfs4_tables_inverse : bool :=
-  forallb (fun row => let '(b, c, wc) := row in
-             match lookup c is_nfs4_perms_cases, lookup wc is_nfs4_perms_w_cases with
-             | Some x, Some y => (x =? b) && (negb (x =? 0)) && (x =? y)
-             | _, _ => false
-             end) nfsv4_perm_map &&
-  forallb (fun row => let '(b, c, wc) := row in
-             match lookup c is_nfs4_flags_cases, lookup wc is_nfs4_flags_w_cases with
-             | Some x, Some y => (x =? b) && (negb (x =? 0)) && (x =? y)
-             | _, _ => false
-             end) nfsv4_flag_map.
-Theorem C15_roundtrip_nfs4_partial : nfs4_tables_inverse = true.
-Proof. vm_compute. reflexivity. Qed.
-Print Assumptions C15_roundtrip_nfs4_partial.
+(* the same for every POSIX.1e ACL that can be built with archive_acl_add_entry / set_mode: the slots
+   are distinct by construction ([plain_ids]: entries without qualifier were added with id -1) *)
+Theorem C15_roundtrip_posix_reachable : forall wide fxl fxw fxs fxm a flags t,
+  reachable a -> acl_rt a -> plain_ids (aents a) ->
+  bit flags ACL_TYPE_ACCESS = false -> bit flags ACL_TYPE_DEFAULT = false ->
+  bit flags ACL_STYLE_EXTRA_ID = true ->
+  to_text fxl wide a flags = Some t ->
+  from_text wide fxw fxs fxm t ACL_TYPE_ACCESS (acl_empty 0) =
+  PRet ARCHIVE_OK (mkAcl (N.land (amode a) 511) (map norm (emitted ACL_TYPE_POSIX1E a))
+                         (lor_types (emitted ACL_TYPE_POSIX1E a))).
+Proof. exact roundtrip_posix_reachable. Qed.
+Print Assumptions C15_roundtrip_posix_reachable.
+
+(* NFSv4 ACLs (allow / deny / audit / alarm entries for user, group, owner@, group@, everyone@; any
+   subset of the 14 permission and 7 inheritance bits), both variants, pinned and repaired code,
+   every flag word with EXTRA_ID (compact or not, comma or newline), parsed with type NFS4 into an
+   entry with any mode: status OK, the mode untouched, every entry back in order ([norm4]: as
+   [norm], the permission set unchanged).  The proof uses the generated letter tables only through
+   the decidable predicate [nfs4_tables_ok] (each letter is read back as the bit of its row, rows
+   are single bits and cover exactly PERMS_NFS4 | INHERITANCE_NFS4, letters are not separators). *)
+Theorem C15_roundtrip_nfs4 : forall wide fxl fxw fxs fxm a flags t m0,
+  Forall entry_rt4 (aents a) ->
+  bit (atypes a) ACL_TYPE_NFS4 = true -> bit (atypes a) ACL_TYPE_POSIX1E = false ->
+  bit flags ACL_STYLE_EXTRA_ID = true ->
+  to_text fxl wide a flags = Some t ->
+  from_text wide fxw fxs fxm t ACL_TYPE_NFS4 (acl_empty m0) =
+  PRet ARCHIVE_OK (mkAcl m0 (map norm4 (aents a)) (lor_types (aents a))).
+Proof. exact roundtrip_nfs4_gen. Qed.
+Print Assumptions C15_roundtrip_nfs4.
+
+Theorem C15_nfs4_tables : nfs4_tables_ok = true.
+Proof. exact nfs4_tables_ok_true. Qed.
+Print Assumptions C15_nfs4_tables.
 
 (* ================================================================ non-vacuity *)
 (* an ACL that meets every hypothesis of C15_roundtrip_posix, with access and default entries,
@@ -220,3 +234,19 @@ Example C15_nonvacuous_roundtrip :
   from_text true false false false ex_text ACL_TYPE_ACCESS (acl_empty 0) =
   PRet ARCHIVE_OK (mkAcl 484 (map norm (aents ex_acl)) ACL_TYPE_POSIX1E).
 Proof. vm_compute. reflexivity. Qed.
+
+Definition ex_acl4 : acl :=
+  fold_left (fun a x => let '(ty, pm, tg, id, nm) := x in snd (add_entry a ty pm tg id nm))
+    [(ACL_TYPE_ALLOW, N.lor ACL_READ_DATA ACL_ENTRY_FILE_INHERIT, ACL_USER, 1000%Z, [106; 111; 101]);
+     (ACL_TYPE_DENY, N.lor ACL_PERMS_NFS4 ACL_INHERITANCE_NFS4, ACL_GROUP, 1234567%Z, []);
+     (ACL_TYPE_AUDIT, 0, ACL_EVERYONE, (-1)%Z, []);
+     (ACL_TYPE_ALARM, ACL_SYNCHRONIZE, ACL_USER_OBJ, (-1)%Z, [])]
+    (acl_empty 420).
+Definition ex_text4 : str :=
+  match to_text false false ex_acl4 (N.lor ACL_STYLE_EXTRA_ID ACL_STYLE_COMPACT) with Some t => t | None => [] end.
+Example C15_nonvacuous_nfs4 :
+  (Nat.eqb (length (aents ex_acl4)) 4 && Nat.eqb (length ex_text4) 107 &&
+   bit (atypes ex_acl4) ACL_TYPE_NFS4 && negb (bit (atypes ex_acl4) ACL_TYPE_POSIX1E)) = true /\
+  from_text false false false false ex_text4 ACL_TYPE_NFS4 (acl_empty 7) =
+  PRet ARCHIVE_OK (mkAcl 7 (map norm4 (aents ex_acl4)) ACL_TYPE_NFS4).
+Proof. split; vm_compute; reflexivity. Qed.
